@@ -199,6 +199,27 @@ PROPS["C13"] = {
 }
 
 
+PROPS["C05"] = {
+    "level": "fault_enumeration",
+    "budget_s": {"quick": 90, "thorough": 3000},
+    "modes": [{"name": "faults", "runs": {"quick": 260, "thorough": 6000}, "chunk": 10},
+              {"name": "crash", "runs": {"quick": 120, "thorough": 3000}, "chunk": 10},
+              {"name": "crash-wal", "runs": {"quick": 60, "thorough": 1500}, "chunk": 10},
+              {"name": "isolation", "runs": {"quick": 150, "thorough": 4000}, "chunk": 25},
+              {"name": "isolation-wal", "runs": {"quick": 80, "thorough": 2000}, "chunk": 25}],
+    "rule": ("mode faults: one run = one transact/patch request with |I|,|D| drawn around the DISCOVERED chunk boundaries (doubling sweep + bisection on the number of INSERT/DELETE statements seen at the SQL seam), on a pre-state that contains the rows to delete and unrelated rows; "
+             "the fault-free run fixes the N statements (BEGIN, mapping insert, every chunk, COMMIT) and the after-state; then for EVERY k<=N x {io,busy,badconn,full,ctx} the request is re-run from the restored pre-state with a fail-stop fault at statement k: state in {before, after}, before when an error was returned; "
+             "then an invalid tuple (no subject / unknown namespace / unknown subject-set namespace) at every position (sampled for large requests, always including both sides of a chunk boundary); an L2 monitor requires one BEGIN, one COMMIT and every write statement on that connection. "
+             "mode crash / crash-wal: file-backed SQLite (rollback journal / WAL); at every statement k all connections die and the database files are copied as a kill -9 would leave them; the copy is reopened: state in {before} (the commit had not run), and after a crash right after the acknowledgement: exactly after. "
+             "mode isolation / isolation-wal (tier T): a writer toggling transact(insert X, delete Y) is parked before each of its statements while readers (REST list, gRPC list with paging, two checks) run to completion; the recorded history (event sequence numbers) is checked with porcupine against a two-state model. "
+             "non-trivial = request touches >= 2 tuples (isolation: at least one read overlapped the transaction); distinct = hash of request shape and pre-state."),
+    "probes": ["probe_multi_chunk_insert", "probe_multi_chunk_delete", "failed_atomically", "invalid_positions", "fault_crash", "fault_crash_after_ack", "reads_during_transaction", "porcupine_ok"],
+    "real": REAL_S + ["SQLite file locking, rollback journal and WAL recovery (file-backed database in crash / isolation modes)", "porcupine v1.3.0 linearizability checker (isolation modes)"], "stub": STUB_S + ["crash = death of every connection + copy of the database files at that instant; power loss / torn pages / fsync lies are below any keto code and not modelled"],
+    "fault_kinds": {"io": "statement returns an I/O error", "busy": "database is locked (pop retries)", "badconn": "driver.ErrBadConn", "full": "SQLITE_FULL", "ctx": "context.Canceled", "crash": "all connections die at statement k, files snapshotted"},
+    "assumptions": ["fail-stop faults only: a 'commit succeeded but the ack was lost' fault without a crash is not injected (no implementation can satisfy 'unchanged when an error was returned' under it)", "isolation observed is SQLite's; keto's contribution (one transaction, every statement on the ctx connection) is what the monitor checks"],
+}
+
+
 def evidence(prop, spec, tier, seed, records, deaths, unfinished, planned, wall_s, sim_wall_s, build_s, nworkers, n_new, known_hits):
     runs = 0
     execs = 0
@@ -285,6 +306,9 @@ def evidence(prop, spec, tier, seed, records, deaths, unfinished, planned, wall_
 
 SIM = "deterministic simulation with fault injection"
 MANIFEST_TEXT = {
+ "C05": {"text": "per generated request the failing SQL statement k is enumerated exhaustively over the statements of the request (x 5 fault kinds), the invalid tuple position over the request, and the crash point over every statement plus 'right after the ack'; a parked-writer / running-readers history is checked with porcupine; requests are sampled around the discovered chunk sizes",
+         "note": "fail-stop faults and process-death crashes only; SQLite only; chunk boundaries are discovered at run time, not copied",
+         "technique": SIM + ": statement-level fault and crash-point enumeration at the SQL-driver seam, file-snapshot restart, porcupine linearizability check of a scheduled reader/writer history"},
  "C13": {"text": "seeded hostile request streams (mutated REST requests, gRPC messages with absent sub-messages) interleaved with normal traffic against the real routers and gRPC servers, with and without fail-stop SQL faults; panic, 5xx/Internal, state-change and process-death oracles",
          "note": "sampling of an unbounded input space; transport framing (HTTP parsing, HTTP/2) is not exercised",
          "technique": SIM + ": generated hostile histories with fault injection at the SQL-driver seam and a model of the stored state"},
